@@ -3,6 +3,7 @@ CONSTANTS
   C = 4
   B = 2
   KIND = "block"
+  STEP = 1
 INIT Init
 NEXT Next
 INVARIANTS BlockInv UnblockInv ComplexInv
